@@ -160,16 +160,17 @@ deriving Repr, DecidableEq, Inhabited
 
 def St.bytes (s : St) : List Byte := s.hdr ++ s.data ++ s.tail
 
+/-- the `if (calc_length)` block of `aiff_write_header`: (sf.frames, filelength, datalength) recomputed from the store -/
+def calcLengths (c : Cfg) (k : Kind) (s : St) : Nat × Int × Int :=
+  let fl : Int := s.bytes.length
+  let dl0 : Int := fl - hdrLen c k
+  let dl : Int := if s.dataend ≠ 0 then dl0 - (fl - s.dataend) else dl0
+  (if c.bw > 0 then (dl / (c.bw : Int)).toNat else s.frames, fl, dl)
+
 /-- `aiff_write_header (psf, calc_length)` -/
 def writeHeader (c : Cfg) (k : Kind) (s : St) (calcLen : Bool) : St :=
-  let s := if calcLen then
-      let fl : Int := s.bytes.length
-      let dl : Int := fl - hdrLen c k
-      let dl := if s.dataend ≠ 0 then dl - (fl - s.dataend) else dl
-      { s with filelength := fl, datalength := dl,
-               frames := if c.bw > 0 then (dl / (c.bw : Int)).toNat else s.frames }
-    else s
-  { s with hdr := hdrRaw c k s.frames s.filelength s.datalength s.peaks }
+  let r := if calcLen then calcLengths c k s else (s.frames, s.filelength, s.datalength)
+  { s with frames := r.1, filelength := r.2.1, datalength := r.2.2, hdr := hdrRaw c k r.1 r.2.1 r.2.2 s.peaks }
 
 /-- `aiff_open` in SFM_WRITE: the caller's `frames` value is discarded, a first header is written -/
 def openW (c : Cfg) (k : Kind) (_callerFrames : Nat) : St :=
